@@ -11,6 +11,22 @@ META = dict(
     outside=['well-formedness of complete documents (balanced elements across the writer switch)', 'EPUB/ODT member generation beyond the escaped strings', 'verbatim (raw/math) exporters: need lexer composition, see DESIGN'],
 )
 
+def gen_lit_table(spec, work, work_root):
+    """(text, kind) for every lexer rule whose pattern is a plain string literal -- from the current lexer.re"""
+    import re, vrun
+    txt = open(os.path.join(vrun.SRC, 'lexer.re')).read()
+    rows = []
+    for m in re.finditer(r'^\s*(["\'])((?:\\.|[^"\'\\])+)\1\s*\{ return ([A-Z_0-9]+); \}', txt, re.M):
+        lit, kind = m.group(2), m.group(3)
+        rows.append((lit, kind))
+    if len(rows) < 60:
+        raise vrun.Fail('literal-rule extraction found only %d rules' % len(rows))
+    mx = 0
+    with open(os.path.join(work, 'lit_table.h'), 'w') as f:
+        f.write('static const char *const LIT_TXT[] = {%s};\n' % ', '.join('"%s"' % l for l, k in rows))
+        f.write('static const int LIT_KIND[] = {%s};\n#define N_LIT %d\n#define LIT_MAX 8\n' % (', '.join(k for l, k in rows), len(rows)))
+    spec['bounds'] = 'all %d literal lexer rules of the current lexer.re (exhaustive), followed by any byte' % len(rows)
+
 def harnesses(tier):
     hs = []
     N = 4 if tier == 'quick' else 6
@@ -38,6 +54,15 @@ def harnesses(tier):
                            unwind=12, unwindset=['mmd_export_token_%s:2' % wn, 'd_string_append_printf.0:120', 'strlen.0:40'], object_bits=11, timeout=900, mem_gb=6, functional=True, replay=False,
                            bounds='first use / re-use x reference / inline definition; the note strings are tracked by identity (any content)',
                            desc='%s %s: abbreviation/glossary text is escaped on every path (first use, re-use, inline, reference)' % (fn, kind)))
+    RAW = [('opendocument_raw', 'repo:opendocument-content.c', 'mmd_export_token_opendocument_raw', ['mmd_export_token_tree_opendocument', 'mmd_export_token_tree_opendocument_raw', 'mmd_export_token_tree_opendocument_math']),
+           ('opendocument_math', 'repo:opendocument-content.c', 'mmd_export_token_opendocument_math', ['mmd_export_token_tree_opendocument', 'mmd_export_token_tree_opendocument_raw', 'mmd_export_token_tree_opendocument_math']),
+           ('html_raw', 'repo:html.c', 'mmd_export_token_html_raw', ['mmd_export_token_tree_html', 'mmd_export_token_tree_html_raw', 'mmd_export_token_tree_html_math']),
+           ('html_math', 'repo:html.c', 'mmd_export_token_html_math', ['mmd_export_token_tree_html', 'mmd_export_token_tree_html_raw', 'mmd_export_token_tree_html_math'])]
+    for nm, unit, fn, trees in RAW:
+        hs.append(dict(name='c08_' + nm, src='c08/raw.c', defs=dict(EXPORT=fn, TREE1=trees[0], TREE2=trees[1], TREE3=trees[2]), prepare=gen_lit_table, pool_off=True,
+                       units=[dict(src=unit, cflags=['-Dexit=verif_exit', '-Dfprintf=verif_fprintf'], remove=trees), 'repo:token.c', 'repo:stack.c', 'repo:object_pool.c', 'repo:char.c'],
+                       unwind=14, object_bits=11, timeout=900, mem_gb=6, functional=True, replay=False, nobody_ok=['verif_exit', 'verif_fprintf'],
+                       desc='%s: delimiter tokens with literal text are escaped in verbatim context (no raw <, no bare &)' % fn))
     return hs
 
 CLAIM = dict(
